@@ -232,7 +232,7 @@ theorem C24_holds : C24_full codeDoneFirstHTTP ∧ C24_full codeDoneFirstOTLP :=
     configuration epoch. -/
 def C24_limiter_full (lazy doneFirst : Bool) : Prop :=
   ∀ (cap : Nat) (evs : List LEv), 1 ≤ cap →
-    let l := lrun lazy doneFirst cap evs
+    let l := lrun lazy doneFirst false cap evs
     (∀ ep, runningIn l ep ≤ cap) ∧ (∀ r, r ∈ l.gates → Safe r.st) ∧
     (∀ (i j : Nat) (ri rj : GateRec), l.gates[i]? = some ri → l.gates[j]? = some rj → ri.epoch = rj.epoch → i = j)
 
@@ -254,7 +254,7 @@ theorem linv_stepGate {l : Lim} (h : LInv l) (g : Nat) (e : Ev) :
     · exact h4 x hx
     · exact ⟨inv_step (h4 r hr).1 e, by simp only [step_cap]; exact (h4 r hr).2⟩
 
-theorem linv_step {l : Lim} (h : LInv l) (e : LEv) : LInv (lstep false false l e) := by
+theorem linv_step {l : Lim} (h : LInv l) (e : LEv) : LInv (lstep false false false l e) := by
   have h' := h
   obtain ⟨h1, h2, h3, h4⟩ := h
   cases e with
@@ -274,14 +274,19 @@ theorem linv_step {l : Lim} (h : LInv l) (e : LEv) : LInv (lstep false false l e
     cases hs : l.stored with
     | none => simpa using h'
     | some g => exact linv_stepGate h' g .arrive
+  | arriveDead =>
+    simp only [lstep]
+    cases hs : l.stored with
+    | none => simpa using h'
+    | some g => exact linv_stepGate h' g .arriveCancelled
   | build => simpa [lstep] using h'
   | on g e =>
-    simp only [lstep]
+    simp only [lstep, Bool.false_eq_true, false_and, if_false]
     split
     · exact h'
     · exact linv_stepGate h' g e
 
-theorem linv_run (cap : Nat) (evs : List LEv) : LInv (lrun false false cap evs) := by
+theorem linv_run (cap : Nat) (evs : List LEv) : LInv (lrun false false false cap evs) := by
   unfold lrun
   have hi : LInv (Lim.init cap) := ⟨trivial, rfl, rfl, fun r hr => by simp [Lim.init] at hr⟩
   generalize Lim.init cap = l at hi
@@ -289,9 +294,9 @@ theorem linv_run (cap : Nat) (evs : List LEv) : LInv (lrun false false cap evs) 
   | nil => exact hi
   | cons e evs ih => exact ih _ (linv_step hi e)
 
-theorem lrun_cap (lazy df : Bool) (cap : Nat) (evs : List LEv) : (lrun lazy df cap evs).cap = cap := by
+theorem lrun_cap (lazy df rl : Bool) (cap : Nat) (evs : List LEv) : (lrun lazy df rl cap evs).cap = cap := by
   unfold lrun
-  have : ∀ (l : Lim), (evs.foldl (lstep lazy df) l).cap = l.cap := by
+  have : ∀ (l : Lim), (evs.foldl (lstep lazy df rl) l).cap = l.cap := by
     induction evs with
     | nil => intro l; rfl
     | cons e evs ih =>
@@ -315,8 +320,8 @@ theorem wfe_getElem {base : Nat} {gs : List GateRec} (h : WFE base gs) {i : Nat}
 theorem C24_limiter_fixed : C24_limiter_full false false := by
   intro cap evs hc
   obtain ⟨h1, h2, h3, h4⟩ := linv_run cap evs
-  have hcap := lrun_cap false false cap evs
-  have hsafe : ∀ r, r ∈ (lrun false false cap evs).gates → Safe r.st ∧ r.st.running ≤ cap := by
+  have hcap := lrun_cap false false false cap evs
+  have hsafe : ∀ r, r ∈ (lrun false false false cap evs).gates → Safe r.st ∧ r.st.running ≤ cap := by
     intro r hr
     obtain ⟨⟨p, hg, _⟩, hrc⟩ := h4 r hr
     rw [hcap] at hrc
@@ -333,14 +338,94 @@ theorem C24_limiter_fixed : C24_limiter_full false false := by
     requests find no gate, each builds its own and passes it — two requests of one configuration
     inside the write path, in two gates of the same epoch. -/
 theorem C24_lazy_exceeds :
-    runningIn (lrun true false 1 [.load, .arrive, .arrive, .build, .build]) 1 = 2 ∧
-    ((lrun true false 1 [.load, .arrive, .arrive, .build, .build]).gates.map (·.epoch)) = [1, 1] := by decide
+    runningIn (lrun true false false 1 [.load, .arrive, .arrive, .build, .build]) 1 = 2 ∧
+    ((lrun true false false 1 [.load, .arrive, .arrive, .build, .build]).gates.map (·.epoch)) = [1, 1] := by decide
 
 theorem C24_limiter_lazy_false : ¬ C24_limiter_full true false := by
   intro h
   have := (h 1 [.load, .arrive, .arrive, .build, .build] (by decide)).1 1
   revert this
   decide
+
+/-- blocked Starts taking free slots keep the invariant -/
+theorem inv_wake : ∀ (n : Nat) (s : St), Inv s → Inv (wake false n s)
+  | 0, _, h => h
+  | n + 1, s, h => by
+    simp only [wake]
+    split
+    · exact inv_wake n _ (inv_step h .acquire)
+    · exact h
+
+theorem wake_cap (df : Bool) : ∀ (n : Nat) (s : St), (wake df n s).cap = s.cap
+  | 0, _ => rfl
+  | n + 1, s => by
+    simp only [wake]
+    split
+    · rw [wake_cap df n, step_cap]
+    · rfl
+
+theorem wfe_wakeAll {base : Nat} {gs : List GateRec} (h : WFE base gs) : WFE base (wakeAll false gs) := by
+  induction gs generalizing base with
+  | nil => exact h
+  | cons g gs ih => exact ⟨h.1, ih h.2⟩
+
+theorem linv_wakeAll {l : Lim} (h : LInv l) : LInv { l with gates := wakeAll false l.gates } := by
+  obtain ⟨h1, h2, h3, h4⟩ := h
+  refine ⟨wfe_wakeAll h1, by simpa [wakeAll] using h2, h3, ?_⟩
+  intro r hr
+  simp only [wakeAll, List.mem_map] at hr
+  obtain ⟨r0, hr0, rfl⟩ := hr
+  exact ⟨inv_wake _ _ (h4 r0 hr0).1, by simp only [wake_cap]; exact (h4 r0 hr0).2⟩
+
+/-- the scripted runs executed against the real limiter and handlers (arrivals, dead arrivals,
+    cancellations, completions and RELOADS while requests are in flight) keep the invariant -/
+theorem linv_script (cap : Nat) (evs : List SEv) :
+    LInv (evs.foldl (lscriptStep false false false) (Lim.init cap)) := by
+  have hi : LInv (Lim.init cap) := ⟨trivial, rfl, rfl, fun r hr => by simp [Lim.init] at hr⟩
+  generalize Lim.init cap = l at hi
+  induction evs generalizing l with
+  | nil => exact hi
+  | cons e evs ih =>
+    apply ih
+    unfold lscriptStep
+    apply linv_wakeAll
+    cases e with
+    | a => exact linv_step hi .arrive
+    | x =>
+      simp only
+      split
+      · split
+        · exact hi
+        · exact linv_step hi .arriveDead
+      · exact hi
+    | c =>
+      simp only
+      split
+      · exact linv_step hi _
+      · exact hi
+    | k => exact hi
+    | f =>
+      simp only
+      split
+      · exact linv_step hi _
+      · exact hi
+    | r => exact linv_step hi .load
+
+/-- **A handler that looks the gate up again for `Done` violates C24 across a limits reload**
+    although limiter, gates and the Start/Done balance are untouched: cap 1 — a request is
+    running, the limits are reloaded (new gate object), the request completes and releases a slot
+    of the NEW, empty gate ⇒ `gate.Done: more operations done than started`; and if the new gate is
+    occupied, the stray Done frees that request's slot: a third request is admitted while the
+    second still runs (two requests of one configuration at cap 1). -/
+theorem C24_relookup_panics :
+    ((lrun false false true 1 [.load, .arrive, .load, .on 0 .finish]).gates.map (·.st.panics)) = [0, 1] := by decide
+
+theorem C24_relookup_exceeds :
+    runningIn (lrun false false true 1 [.load, .arrive, .load, .arrive, .on 0 .finish, .arrive]) 2 = 2 := by decide
+
+/-- with the gate kept (the code as it is) the same schedules are harmless -/
+example : ((lrun false false false 1 [.load, .arrive, .load, .on 0 .finish]).gates.map (·.st.panics)) = [0, 0] ∧
+    runningIn (lrun false false false 1 [.load, .arrive, .load, .arrive, .on 0 .finish, .arrive]) 2 = 1 := by decide
 
 /-- the limiter of the code as it is -/
 theorem C24_limiter_holds : C24_limiter_full codeLazyGate codeDoneFirstHTTP := C24_limiter_fixed
@@ -391,6 +476,15 @@ theorem C24_limiter_fact :
     lazyOfFacts Thanos.Facts.limiterGateBuiltIn Thanos.Facts.limiterGateAssignedIn
       Thanos.Facts.limiterWriteGateBody Thanos.Facts.limiterLoadConfigSeq = some codeLazyGate := by decide
 
+/-- Regenerated obligation: both handlers look the gate up exactly once
+    (`writeGate := h.Limiter.WriteGate()`) and call `Start` and the deferred `Done` on that value. -/
+theorem C24_lookup_fact :
+    Thanos.Facts.receiveHTTPGateLookup = ["writeGate := h.Limiter.WriteGate()"] ∧
+    Thanos.Facts.receiveOTLPHTTPGateLookup = ["writeGate := h.Limiter.WriteGate()"] ∧
+    Thanos.Facts.receiveHTTPGateCalls = ["writeGate.Start", "writeGate.Done"] ∧
+    Thanos.Facts.receiveOTLPHTTPGateCalls = ["writeGate.Start", "writeGate.Done"] := by
+  refine ⟨?_, ?_, ?_, ?_⟩ <;> decide
+
 /-! ### non-vacuity -/
 
 -- capacity 2, five requests: two run, two wait, one waiter gives up, one completes, a waiter
@@ -402,7 +496,7 @@ example : (run true 2 [.arrive, .arrive, .arrive, .arrive, .cancel, .finish, .ac
     (run true 2 [.arrive, .arrive, .arrive, .arrive, .cancel, .acquire, .acquire]).running = 3 := by decide
 
 -- the limiter: start-up load, three arrivals at capacity 2, a reload, two more arrivals, one of the first completes
-example : (lrun false false 2 [.load, .arrive, .arrive, .arrive, .load, .arrive, .on 0 .finish, .on 0 .acquire, .arrive]).gates.map
+example : (lrun false false false 2 [.load, .arrive, .arrive, .arrive, .load, .arrive, .on 0 .finish, .on 0 .acquire, .arrive]).gates.map
     (fun r => (r.epoch, r.st.running, r.st.waiting)) = [(1, 2, 0), (2, 2, 0)] := by decide
 
 end Thanos.Gate
